@@ -284,7 +284,7 @@ def run_chunk(spec):
     observe.quiet_logs()
     res = Result()
     tier, ci = spec["tier"], spec["chunk"]
-    wd = Watchdog(res, 120.0)
+    wd = Watchdog(res, 400.0)
     wd.arm("enumeration")
     n = 0
     # Part 1: one level (deepest), complete to size 2 (quick) / 3 (thorough)
